@@ -323,14 +323,15 @@ class CodeGenerator(abc.ABC):
             arguments += ["missing_variables"]
 
         values_lst = []
-        index = 0
+        # The slot of a state is its state index, which does not depend on the order
+        # the (possibly reduced set of) assignments are visited
+        index = {state.name: i for i, state in enumerate(self.ode.sorted_states())}
         values_idx = sympy.IndexedBase("values", shape=(len(self.ode.state_derivatives),))
 
         for x in self.ode.sorted_assignments(remove_unused=self.remove_unused):
             values_lst.append(self._doprint(x.symbol, x.expr, use_variable_prefix=True))
             if isinstance(x, atoms.StateDerivative):
-                values_lst.append(self._doprint(values_idx[index], x.symbol))
-                index += 1
+                values_lst.append(self._doprint(values_idx[index[x.state.name]], x.symbol))
 
         values = "\n".join(values_lst)
         code = self.template.method(
